@@ -7,6 +7,7 @@
 
 #[path = "../../laws/laws.rs"]
 pub mod laws;
+mod axcheck;
 mod rng;
 mod standins;
 
@@ -118,6 +119,13 @@ fn main() {
             laws::all_items(&mut src);
             let f: Vec<String> = src.failed.iter().map(|l| json_str(l)).collect();
             println!("{{\"failed\":[{}],\"passed\":{}}}", f.join(","), src.passed);
+        }
+        "axcheck" => {
+            let seed: u64 = args.get(2).and_then(|s| s.parse().ok()).unwrap_or(0);
+            let ax = axcheck::run(seed);
+            let f: Vec<String> = ax.failures.iter().map(|x| json_str(x)).collect();
+            let a: Vec<String> = ax.axioms.iter().map(|x| json_str(x)).collect();
+            println!("{{\"cases\":{},\"axioms\":[{}],\"failures\":[{}]}}", ax.cases, a.join(","), f.join(","));
         }
         "standin" => {
             let prop = args[2].clone();
